@@ -387,6 +387,12 @@ func generate(prop, tier string, r *rand.Rand, idx int) any {
 		return genC04(prop, tier, r)
 	case "C05":
 		return genC05(prop, tier, r)
+	case "C17":
+		return genC17(prop, tier, r)
+	case "C19":
+		return genC19(prop, tier, r)
+	case "C18":
+		return genC18(prop, tier, r)
 	case "C06":
 		return genC06(prop, tier, r)
 	case "C07":
@@ -761,4 +767,171 @@ func genC05(prop, tier string, r *rand.Rand) *Scn {
 		}
 	}
 	return sc
+}
+
+// ---- C18 / C17 / C19 / C20 ------------------------------------------------------------
+
+// anyNode creates a node of any kind (leaf kinds, function nodes with unset
+// phases, batch nodes with 0..3 items) whose post returns the given action.
+func (g *gen) anyNode(action string) *NodeSpec {
+	g.failP = 0
+	switch g.r.IntN(3) {
+	case 0:
+		conc := g.r.IntN(3)
+		n := g.rootBatch(g.r.IntN(4), 1, 0, conc, g.chance(0.3), []string{"results", "anys", "nil", "single"})
+		n.Visits[0].Post.Action = action
+		if g.chance(0.2) {
+			n.Styles = "RR-" // no post function: the default action
+		}
+		return n
+	default:
+		n := g.leaf(1)
+		if n.Kind == "func" && g.chance(0.3) {
+			st := []byte(n.Styles)
+			st[2] = '-'
+			n.Styles = string(st)
+		}
+		n.Visits[0].Post.Action = action
+		return n
+	}
+}
+
+func genC18(prop, tier string, r *rand.Rand) *Scn {
+	g := newGen(prop, tier, r)
+	g.failP = 0
+	action := pick(r, []string{"", "", "default", "a", "b"})
+	n := g.anyNode(action)
+	x := n.ID
+	if g.sc.Nodes[g.sc.Root].Kind == "flow" {
+		x = g.sc.Root // rootBatch sometimes wraps the batch in a flow: use that as the node
+	}
+	switch r.IntN(3) {
+	case 0: // run directly
+		g.sc.Root = x
+	case 1: // a flow used as a node around it
+		inner := &NodeSpec{ID: len(g.sc.Nodes), Kind: "flow", Start: x}
+		g.sc.Nodes = append(g.sc.Nodes, inner)
+		g.sc.Root = inner.ID
+		x = inner.ID
+	}
+	if r.IntN(3) > 0 {
+		// as a routed step: the default connection must be followed to the witness
+		w := g.leaf(1)
+		other := g.leaf(1)
+		f := &NodeSpec{ID: len(g.sc.Nodes), Kind: "flow", Start: x}
+		f.Conns = []Conn{{From: x, Action: "default", To: w.ID}, {From: x, Action: "a", To: other.ID}, {From: x, Action: "b", To: other.ID}}
+		if r.IntN(2) == 0 {
+			f.Conns = append(f.Conns, Conn{From: x, Action: "", To: other.ID}) // a connection on the empty action must never be taken
+		}
+		g.sc.Nodes = append(g.sc.Nodes, f)
+		g.sc.Root = f.ID
+	}
+	return g.sc
+}
+
+func genC17(prop, tier string, r *rand.Rand) *Scn {
+	return bounded(func() *Scn {
+		g := newGen(prop, tier, r)
+		g.kinds = []string{"func"}
+		g.failP = 0.25
+		g.noErrRes = false
+		g.sc.Faulty = true
+		switch r.IntN(4) {
+		case 0, 1:
+			n := g.leaf(1 + r.IntN(2))
+			g.sc.Root = n.ID
+			g.sc.Runs = len(n.Visits)
+		case 2:
+			g.sc.Root = g.tree(1+r.IntN(4), 1+r.IntN(2), 0.25)
+		default:
+			conc := r.IntN(4)
+			n := g.rootBatch(batchSize(r, 8), 1+r.IntN(3), 0, conc, false, []string{"results", "anys", "ints", "strings", "single"})
+			g.timing(n)
+		}
+		return g.sc
+	})
+}
+
+func genC19(prop, tier string, r *rand.Rand) *Scn {
+	g := newGen(prop, tier, r)
+	g.failP = 0.3
+	g.sc.Faulty = true
+	var n *NodeSpec
+	isBatch := r.IntN(2) == 0
+	if isBatch {
+		n = g.rootBatch(batchSize(r, 8), 1, 0, 0, false, nil)
+		n.Hand = false
+		n.PrepShape = ""
+		n.FnForm = pick(r, []string{"opt", "builder"})
+		n.HasFb = r.IntN(3) == 0
+	} else {
+		g.kinds = []string{"func", "func", "base"}
+		n = g.leaf(1)
+		g.sc.Root = n.ID
+	}
+	// a sequence of up to 6 settings; later ones override earlier ones
+	n.Settings = nil
+	k := r.IntN(7)
+	for i := 0; i < k; i++ {
+		s := Setting{Form: pick(r, []string{"opt", "builder"})}
+		if n.Kind == "base" {
+			s.Form = "opt"
+		}
+		switch r.IntN(4) {
+		case 0:
+			s.Param, s.Val = "retries", 1+r.IntN(5)
+		case 1:
+			s.Param, s.Val = "wait", pick(r, []int{0, 10, 20, 50})
+		case 2:
+			s.Param, s.Val = "conc", r.IntN(5)
+		default:
+			s.Param, s.Val = "stop", r.IntN(2)
+		}
+		n.Settings = append(n.Settings, s)
+	}
+	n.Settings = orderSettings(n.Settings)
+	cfg := n.config()
+	// probe scripts that make the configuration observable
+	vs := &n.Visits[0]
+	if isBatch {
+		for i := range vs.Items {
+			vs.Items[i].Exec = g.execScript(cfg.Retries, false)
+			vs.Items[i].Fb = nil
+			if n.HasFb && g.chance(0.6) {
+				fo := g.outcome()
+				vs.Items[i].Fb = &fo
+			}
+		}
+		g.timing(n)
+	} else {
+		vs.Exec = g.execScript(cfg.Retries, false)
+	}
+	return g.sc
+}
+
+// canonical: the same scenario configured the plain way: constructor options
+// only, one (the last) value per parameter.
+func canonical(sc *Scn) *Scn {
+	c := sc.clone()
+	for _, n := range c.Nodes {
+		if n.Kind == "flow" || n.Hand {
+			continue
+		}
+		last := map[string]int{}
+		var order []string
+		for _, s := range n.Settings {
+			if _, ok := last[s.Param]; !ok {
+				order = append(order, s.Param)
+			}
+			last[s.Param] = s.Val
+		}
+		n.Settings = nil
+		for _, p := range order {
+			n.Settings = append(n.Settings, Setting{Param: p, Form: "opt", Val: last[p]})
+		}
+		if n.Kind == "func" || n.Kind == "batch" {
+			n.FnForm = "opt"
+		}
+	}
+	return c
 }
